@@ -182,10 +182,13 @@ def install(w: World):
 
 
 def valid(w, s, o=None):
-    """the output record of stem s is a valid result for the current input: exists, loadable, same hash, exit code 0"""
+    """the output record of stem s is a valid result for the current input: exists, loadable, exit code 0, and -- unless the caller
+    switched strict_hash off -- produced from the same input (hash)"""
     o = o or w.out[s]
     if not o["exists"] or not o["loadable"]:
         return False
+    if not getattr(w, "strict", True):
+        return to_z3(o["exitcode"], "int") == 0
     return z3.And(to_z3(o["hash"]) == w.H[s].z, to_z3(o["exitcode"], "int") == 0)
 
 
@@ -193,6 +196,7 @@ def unit(vectorized):
     def body(V):
         I, st = V.I, V.st
         w = World(V, vectorized)
+        w.strict = V.choose([True, False], "strict_hash")
         install(w)
         cached0 = {s: dict(o) for s, o in w.out.items()}
         V.witness(lambda ev: {"op": "jobmap", "vectorized": vectorized, "in_src": w.in_src, "in_dst": w.in_dst,
@@ -200,7 +204,7 @@ def unit(vectorized):
                                              "exit": ev(o["exitcode"])} for s, o in cached0.items()},
                               "run_exit": {s: ev(r) for s, r in w.run_rc.items()}, "process_raises": w.proc_raises, "signature": "jobmap"})
         V.cover()
-        out = V.call(JM, [w.job, w.source, w.dest], {"cache_dir": "cache"})
+        out = V.call(JM, [w.job, w.source, w.dest], {"cache_dir": "cache", **({} if w.strict else {"strict_hash": False})})
         V.ensure("post/no-exception-escapes", z3.BoolVal(out.returned))
         todo = [k for k in KEYS if w.in_src[k] and not w.in_dst[k]]
         V.ensure("post/only-missing-source-items-are-touched", z3.BoolVal(all(k in todo or k not in w.src_get for k in KEYS) and all(k in KEYS for k in w.src_get)))
@@ -224,6 +228,10 @@ def unit(vectorized):
                          (should if not isinstance(should, bool) else z3.BoolVal(should)) == z3.BoolVal(written))
                 if written:
                     V.ensure(f"post/{k}:stored-once-the-processed-result", z3.BoolVal(w.dst_set[k] == [Opaque(f"obj:result[{k}]")]))
+                    # what was processed: the loaded output record of every sub-job, in order (not an exhausted iterator, not a subset)
+                    got_ = w.processed.get(k)
+                    V.ensure(f"post/{k}:process-receives-every-output-record-in-order",
+                             z3.BoolVal(isinstance(got_, list) and [getattr(o_, "tag", None) for o_ in got_] == [f"out:{s_}" for s_ in w.subs[k]]))
     return body
 
 
